@@ -269,7 +269,27 @@ def install():
     return m
 
 
+class _BrokenFinder:
+    """a cplex package that is present but cannot be imported (half-installed wrapper): plain ImportError"""
+
+    def find_spec(self, name, path=None, target=None):
+        if name == "cplex" or name.startswith("cplex."):
+            raise ImportError("cplex is installed but its shared library cannot be loaded (stand-in)")
+        return None
+
+
+_BROKEN = _BrokenFinder()
+
+
+def install_broken():
+    uninstall()
+    if _BROKEN not in sys.meta_path:
+        sys.meta_path.insert(0, _BROKEN)
+
+
 def uninstall():
+    if _BROKEN in sys.meta_path:
+        sys.meta_path.remove(_BROKEN)
     import corankco.algorithms.exact.exactalgorithmcplex as mod
     for k in ("cplex", "cplex.callbacks", "cplex.exceptions"):
         sys.modules.pop(k, None)
